@@ -20,6 +20,11 @@ pub enum Case {
     Strings(Vec<String>),
     /// A tree: the walk, the listing and the written index must follow the order.
     Walk { opts: Opts, tree: Tree },
+    /// A tree one directory of which also holds names that are not valid UTF-8, pairwise
+    /// differing only in their invalid bytes. Conserve leaves such names out; the walk, the
+    /// written index and the listing must stay strictly increasing (no path twice) and must
+    /// hold every well-formed path of the tree.
+    WalkUndecodable { opts: Opts, tree: Tree, dir: u16 },
     /// A tree that changes while it is backed up: when the backup reports the `when`-th file,
     /// the `trunc`-th later file of the same directory is truncated to nothing. The written
     /// index and the listing must still be strictly increasing.
@@ -307,6 +312,7 @@ fn strategy(_tier: Tier) -> BoxedStrategy<Case> {
         2 => prop::collection::vec(path_strategy(), 2..12).prop_map(Case::Paths),
         1 => prop::collection::vec(junk_string(), 1..8).prop_map(Case::Strings),
         5 => tree::opts_tree_strategy(TreeCfg { long_names: true, ..TreeCfg::plain() }).prop_map(|(opts, tree)| Case::Walk { opts, tree }),
+        1 => (tree::opts_tree_strategy(TreeCfg::plain()), any::<u16>()).prop_map(|((opts, tree), dir)| Case::WalkUndecodable { opts, tree, dir }),
         1 => (tree::opts_tree_strategy(TreeCfg { max_children: 8, links: false, ..TreeCfg::plain() }), any::<u16>(), any::<u16>())
             .prop_map(|((opts, tree), when, trunc)| Case::WalkChanging { opts: Opts { cap: opts.cap.max(4096), ..opts }, tree, when, trunc, blink: None }),
         1 => (tree::opts_tree_strategy(TreeCfg { max_children: 8, links: false, ..TreeCfg::plain() }), any::<u16>(), 1u8..6)
@@ -460,6 +466,50 @@ fn run(case: &Case, cx: &mut Cx) -> CaseResult {
             strictly_increasing("listing", &listing)?;
             cx.label("tree-changing-during-backup");
             cx.nontrivial = victim.is_some();
+            Ok(())
+        }
+        Case::WalkUndecodable { opts, tree, dir } => {
+            let src = cx.dir("src");
+            let arch = cx.dir("arch");
+            tree::materialise(tree, &src);
+            let dirs = tree.dirs();
+            let d = dirs[(*dir as usize * dirs.len()) >> 16].clone();
+            tree::add_undecodable_twins(tree, &src, &d);
+            let mut model: Vec<String> = tree.paths();
+            model.sort_by(|a, b| ref_cmp(a, b));
+            let holds_model = |what: &str, got: &[String]| -> CaseResult {
+                for p in &model {
+                    ensure!(got.contains(p), format!("C11/{what}-lacks-a-path"), "{what} lacks {p:?} (undecodable names were put into {d:?})");
+                }
+                Ok(())
+            };
+            let w = ops::source_walk(&src, &[]);
+            ensure!(w.panic.is_none() && w.result.is_ok(), "C11/walk-failed-beside-undecodable-names", "{}", w.describe());
+            let walk = w.result.unwrap();
+            strictly_increasing("source-walk", &walk)?;
+            holds_model("source-walk", &walk)?;
+            let c = ops::create_archive(&arch);
+            ensure!(c.clean(), "C11/create", "{}", c.describe());
+            let b = ops::backup(&arch, &None, &src, *opts, &[]);
+            ensure!(b.panic.is_none() && b.result.is_ok(), "C11/backup-failed-beside-undecodable-names", "{}", b.describe());
+            let ra = format::scan(&arch);
+            let band = ra.bands.get(&0).ok_or_else(|| Failure::new("C11/no-band", "no b0000"))?;
+            let mut idx_paths = vec![];
+            for h in &band.hunks {
+                match &h.entries {
+                    Ok(es) => idx_paths.extend(es.iter().map(|e| e.apath.clone())),
+                    Err(e) => fail!("C11/hunk-undecodable", "{}: {e}", h.relpath),
+                }
+            }
+            strictly_increasing("written-index", &idx_paths)?;
+            holds_model("written-index", &idx_paths)?;
+            let l = ops::list_entries(&arch, &None, &Sel::Band(0), "/", &[], model.len() * 2 + 100);
+            ensure!(l.panic.is_none() && l.result.is_ok(), "C11/list-error", "{}", l.describe());
+            let listing: Vec<String> = l.result.unwrap().iter().map(|e| e.apath.to_string()).collect();
+            strictly_increasing("listing", &listing)?;
+            holds_model("listing", &listing)?;
+            cx.label("names-that-are-not-utf8-beside");
+            cx.nontrivial = true;
             Ok(())
         }
         Case::Walk { opts, tree } => {
